@@ -55,11 +55,15 @@ def _slicing_general(ctx):
     sl = straightline_ex([s_ for s_ in rz.body if not (isinstance(s_, ast.Expr) and isinstance(s_.value, ast.Constant))])
     ev = {k: f"evaluate(self.{k}, {cx})" for k in ("count", "start", "stop", "step")}
     want = f"(Slicing(self.subcon, {ev['count']}, {ev['start']}, {ev['stop']}, {ev['step']}, self.pattern), {ev['start']}, {ev['stop']}, {ev['step']})"
-    got = canon_ast(sl["ret"]) if sl["ret"] is not None else None
-    if got is None:
-        raise AnalysisError("L6", where(rz), "SlicingGeneral._realize is not a straight-line computation (unrecognised form)")
-    ctx.ob("L6", rz, "SlicingGeneral realises Slicing(subcon, count, start, stop, step) from the evaluated expressions, unchanged", got == want,
-           "" if got == want else f"returns `{got[:220]}`", inst="slicing-realize")
+    # on every returning path the value is exactly the tuple built from the four evaluated expressions (a branch that replaces a
+    # bound - e.g. `evaluate(..) or default` - shows up as a path with another term)
+    want_k = evaluator(ctx, rz, {}).ev(ast.parse(want, mode="eval").body).key()
+    rps = [p_ for p_ in run_paths(ctx, rz, rule="L6", limit=4000) if p_.end == "return"]
+    if not rps:
+        raise AnalysisError("L6", where(rz), "SlicingGeneral._realize has no returning path")
+    bad = [p_ for p_ in rps if p_.ret is None or p_.ret.key() != want_k]
+    ctx.ob("L6", rz, "SlicingGeneral realises Slicing(subcon, count, start, stop, step) from the evaluated expressions, unchanged", not bad,
+           "" if not bad else f"under [{bad[0].cond_key()[:100]}] returns `{(bad[0].ret.key() if bad[0].ret is not None else None)[:200]}`", inst="slicing-realize")
     dec = ctx.fn(path, "SlicingGeneral._decode", "L6")
     sd = straightline_ex([s_ for s_ in dec.body if not (isinstance(s_, ast.Expr) and isinstance(s_.value, ast.Constant))])
     a = [x.arg for x in dec.args.args]
